@@ -20,6 +20,16 @@ def builds_needed(tier):
     return ["rel"]
 
 
+# Own corpus re-run on other builds of the crate (mc/core.py: extra builds). Every observation is compared with the same model.
+def _vec(fname, kind):
+    return str(kind).startswith(("sha224", "sha256", "blake2"))
+
+
+def extra_builds(tier):
+    return [("relchk", None), ("sse41", _vec), ("avx", _vec), ("avx2", _vec)]
+
+
+
 def bounds(tier):
     return {"digests": len(KINDS), "key_lengths": "0,1,B-1,B,B+1,2B+5", "message_lengths": "0,1,B-1,B,B+1,2B+3", "chunk_tree_depth": 4 if tier == "thorough" else 3, "every_key_length_0_to_2B+5": "all digests" if tier == "thorough" else "sha256, sha3_256, blake2b:32"}
 
@@ -74,7 +84,7 @@ def shard_kind(kind, tier):
                     cases.append(([new, "minput s0 %s" % P(6, 0, a), "minput s0 %s" % P(6, a, b), "minput s0 %s" % P(6, a + b, c), "mresult s0"],
                                   ["-", "-", "-", "-", t], {"nt": True}))
     # every key length across the pad / hash-the-key boundary (thorough: for every digest; quick: three digests)
-    if tier == "thorough" or kind in ("sha256", "sha3_256", "blake2b:32"):
+    if True:
         for kl in range(0, 2 * B + 6):
             key = pat(7, 3, kl)
             new = "mnew s0 hmac %s %s" % (kind, P(7, 3, kl) if kl else "h:")
@@ -92,6 +102,35 @@ def shard_kind(kind, tier):
                         t = obs_of(mac(key, pat(6, 0, a + b + c + d)))
                         cases.append(([new, "minput s0 %s" % P(6, 0, a), "minput s0 %s" % P(6, a, b), "minput s0 %s" % P(6, a + b, c),
                                        "minput s0 %s" % P(6, a + b + c, d), "mraw s0"], ["-", "-", "-", "-", "-", t], {"nt": True}))
+    # multi-block single calls (5..20 whole blocks with -1/0/+1 tails, fresh or after one buffered byte) and keys of many blocks:
+    # every batch size and tail size of a multi-block compression loop, through the inner hash, the key hash and the outer hash
+    key = pat(5, 0, 7)
+    new = "mnew s0 hmac %s %s" % (kind, P(5, 0, 7))
+    for k in range(5, 21):
+        for d in (-1, 0, 1):
+            ml = k * B + d
+            t = obs_of(mac(key, pat(6, 0, ml)))
+            cases.append(([new, "minput s0 %s" % P(6, 0, ml), "mraw s0"], ["-", "-", t], {"nt": True}))
+            t = obs_of(mac(key, pat(6, 0, ml + 1)))
+            cases.append(([new, "minput s0 %s" % P(6, 0, 1), "minput s0 %s" % P(6, 1, ml), "mraw s0"], ["-", "-", "-", t], {"nt": True}))
+    for k in range(3, 14):
+        for d in (0, 10):
+            kl = k * B + d
+            t = obs_of(mac(pat(7, 1, kl), pat(6, 0, 3)))
+            cases.append((["mnew s0 hmac %s %s" % (kind, P(7, 1, kl)), "minput s0 %s" % P(6, 0, 3), "mraw s0"], ["-", "-", t], {"nt": True}))
+    # the object is re-keyed by reset at any point of its life (before any input, after abandoned input, after a result):
+    # the next result is the HMAC of exactly the bytes fed since the reset
+    for kp, kl in ((5, 7), (1, B), (7, 2 * B + 5)):
+        key = pat(kp, 0, kl)
+        new = "mnew s0 hmac %s %s" % (kind, P(kp, 0, kl))
+        for ml in (0, 1, B - 1, B + 1):
+            m2 = pat(6, 40, ml)
+            a2 = P(6, 40, ml) if ml else "h:"
+            t = obs_of(mac(key, m2))
+            for pre in ([], ["minput s0 %s" % P(5, 9, 1)], ["minput s0 %s" % P(5, 9, B)], ["minput s0 %s" % P(5, 9, B + 3)]):
+                cases.append(([new] + pre + ["mreset s0", "minput s0 %s" % a2, "mraw s0"], ["-"] + ["-"] * len(pre) + ["-", "-", t], {"nt": True}))
+                cases.append(([new] + pre + ["mraw s0", "mreset s0", "minput s0 %s" % a2, "mresult s0", "mreset s0", "minput s0 %s" % a2, "mraw s0"],
+                              ["-"] + ["-"] * len(pre) + [None, "-", "-", t, "-", "-", t], {"nt": True}))
     ck.run(cases, nontrivial=_nt)
     ck.stats.states = len(cases) + 1
     return ck.stats
